@@ -33,6 +33,12 @@ UNITS["C02"] = [
          trusted=["insert_partial only raises the head (proved: unit c02_booked); the row loops visit every persisted row (rusqlite)"]),
     dict(kind="structural", name="c02_sql_scoping", check="sql_actor_scoping", file="crates/klukai-types/src/agent.rs",
          trusted=["heuristic SQL reading (see c03_sql_scoping)"]),
+    dict(kind="verus", name="c02_insert_db", template="specs/c02_insert_db.vrs",
+         under_contract=["VersionsSnapshot::insert_db", "lemma_decomposition_unique"], vacuity=["insert_db"],
+         assumptions=["each literal SQL statement of insert_db is bound to a stand-in over a ghost table (DELETE by (actor,start,end) returns the row count; INSERT with PRIMARY KEY (actor_id,start)); `conn` is taken as &mut for the ghost table",
+                      "compute_gaps_change is used through its contract (same text as proved in unit c02_gaps)",
+                      "I/O errors: any SQL call may fail, nothing is promised on Err (the caller's transaction is rolled back)",
+                      "versions are SQLite INTEGERs in 1..2^63-1; the diagnostic SELECT on the error path is dropped"]),
     dict(kind="verus", name="c02_sync", template="specs/c02_sync.vrs",
          under_contract=["frag_generate_sync_actor"], vacuity=["frag_generate_sync_actor"],
          assumptions=["per-actor body of generate_sync as a fragment (read guard -> stand-in struct; `continue` -> return); BTreeMap::iter().filter(closure) replaced by a contract stand-in that keeps the real closure body",
